@@ -378,6 +378,43 @@ def zero_prob_draw(g):
     return False
 
 
+# ----------------------------------------------------------------------------
+# argument forms: the docstrings allow n as "list or np.ndarray of int/float" and m as "int, float"
+# ----------------------------------------------------------------------------
+N_FORMS_INT = ['list', 'tuple', 'i64', 'i32', 'u8', 'npint']
+N_FORMS_FLOAT = ['f64', 'listf', 'npfloat']
+M_FORMS = ['int', 'float', 'i64', 'f64', 'i32']
+
+
+def form_n(n, form):
+    n = [int(k) for k in n]
+    return {'list': lambda: list(n), 'tuple': lambda: tuple(n),
+            'i64': lambda: np.array(n, dtype=np.int64), 'i32': lambda: np.array(n, dtype=np.int32),
+            'u8': lambda: np.array(n, dtype=np.uint8), 'npint': lambda: [np.int64(k) for k in n],
+            'f64': lambda: np.array(n, dtype=np.float64), 'listf': lambda: [float(k) for k in n],
+            'npfloat': lambda: [np.float64(k) for k in n]}[form]()
+
+
+def form_m(m, form):
+    m = int(m)
+    return {'int': m, 'float': float(m), 'i64': np.int64(m), 'f64': np.float64(m), 'i32': np.int32(m)}[form]
+
+
+def int_result(call):
+    """[0, rows] like C.call_impl, but a result that is not an integer ndarray is reported as such (3.0 == 3 in
+    Python, so the exact comparison alone would not see a float-valued result)"""
+    try:
+        x = call()
+    except Exception as e:  # noqa
+        return [C.errclass(e)]
+    xs = x if isinstance(x, tuple) else (x,)
+    for a in xs:
+        if not isinstance(a, np.ndarray) or not np.issubdtype(a.dtype, np.integer):
+            return [-1, 'result is not an integer ndarray: ' + (str(a.dtype) if isinstance(a, np.ndarray) else type(a).__name__)]
+    return [0, C.tolist(x)]
+
+
+
 def natl(x):
     return C.nested(np.asarray(x).astype(int).tolist(), str)
 
@@ -678,14 +715,17 @@ def corr_int(R, ctx, tn):
         n = [rng.randint(1, 6) for _ in range(d)]
         m = rng.choice([1, 2, 3, 4, 5, 6, 7, 8, 12, 13])
         g = Aud(rng.randrange(2 ** 31))
-        impl = C.call_impl(tn.sample_lhs, n, m, seed=g)
+        nf, mf = rng.choice(N_FORMS_INT + N_FORMS_FLOAT), rng.choice(M_FORMS)
+        impl = int_result(lambda: tn.sample_lhs(form_n(n, nf), form_m(m, mf), seed=g))
+        dist.setdefault('n_form', {})[nf] = dist.setdefault('n_form', {}).get(nf, 0) + 1
+        dist.setdefault('m_form', {})[mf] = dist.setdefault('m_form', {}).get(mf, 0) + 1
         dist['d'][d] = dist['d'].get(d, 0) + 1
         dist['m_lt_n'] += m < max(n)
         dist['m_multiple'] += any(m % k == 0 for k in n)
         dist['contract_bad'] += bool(contract_violations(g))
         items.append(dict(coq=f'sample_lhs (lk_chnr {rec_chnr(g)}) (lk_shuf {rec_shuf(g)}) 0 {natl(n)} {m}',
-                          impl=impl[1] if impl[0] == 0 else [[impl[0] + 1000]],
-                          input=dict(fn='sample_lhs', n=n, m=m)))
+                          impl=impl[1] if impl[0] == 0 else [[impl[0] + 1000] + impl[1:]],
+                          input=dict(fn='sample_lhs', n=n, m=m, n_form=nf, m_form=mf)))
     bad += C.exact_corr(R, 'sample_lhs', HEADER, items, chunk=20, distribution=dist)
     # sample_rand
     items = []
@@ -695,13 +735,16 @@ def corr_int(R, ctx, tn):
         n = [rng.randint(1, 6) for _ in range(d)]
         m = rng.randint(1, 7)
         g = Aud(rng.randrange(2 ** 31))
-        impl = C.call_impl(tn.sample_rand, n, m, seed=g)
+        nf, mf = rng.choice(N_FORMS_INT + N_FORMS_FLOAT), rng.choice(M_FORMS)
+        impl = int_result(lambda: tn.sample_rand(form_n(n, nf), form_m(m, mf), seed=g))
+        dist.setdefault('n_form', {})[nf] = dist.setdefault('n_form', {}).get(nf, 0) + 1
+        dist.setdefault('m_form', {})[mf] = dist.setdefault('m_form', {}).get(mf, 0) + 1
         dist['d'][d] = dist['d'].get(d, 0) + 1
         dist['contract_bad'] += bool(contract_violations(g))
         recu = '[' + '; '.join(f"({c['n']}, {int(c['size'])}, {natl(c['out'])})" for c in g.of('choice_u')) + ']'
         items.append(dict(coq=f'showR (sample_rand (lk_chnr {recu}) {natl(n)} {m})',
-                          impl=[[0]] + impl[1] if impl[0] == 0 else [[impl[0]]],
-                          input=dict(fn='sample_rand', n=n, m=m)))
+                          impl=[[0]] + impl[1] if impl[0] == 0 else [[impl[0]] + impl[1:]],
+                          input=dict(fn='sample_rand', n=n, m=m, n_form=nf, m_form=mf)))
     items.append(dict(coq='showR (sample_rand (lk_chnr []) [] 3)',
                       impl=(lambda r: [[0]] + r[1] if r[0] == 0 else [[r[0]]])(C.call_impl(tn.sample_rand, [], 3, seed=Aud(1))),
                       input=dict(fn='sample_rand', n=[], m=3)))
@@ -714,16 +757,19 @@ def corr_int(R, ctx, tn):
         n = [rng.randint(1, 4) for _ in range(d)]
         r = rng.randint(1, 4)
         g = Aud(rng.randrange(2 ** 31))
-        try:
-            I, idx, im = tn.sample_tt(n, r, seed=g)
-            impl = [np.asarray(I).tolist(), [np.asarray(idx).tolist()], [np.asarray(im).tolist()]]
-        except Exception as e:  # noqa
-            impl = [[[C.errclass(e) + 1000]]]
+        nf, rf = rng.choice(N_FORMS_INT), rng.choice(['int', 'float', 'i64'])
+        res = int_result(lambda: tn.sample_tt(form_n(n, nf), form_m(r, rf), seed=g))
+        dist.setdefault('n_form', {})[nf] = dist.setdefault('n_form', {}).get(nf, 0) + 1
+        if res[0] == 0:
+            I, idx, im = res[1]
+            impl = [I, [idx], [im]]
+        else:
+            impl = [[[res[0] + 1000] + res[1:]]]
         dist['d'][d] = dist['d'].get(d, 0) + 1
         dist['r'][r] = dist['r'].get(r, 0) + 1
         dist['contract_bad'] += bool(contract_violations(g))
         items.append(dict(coq=f'showTT (sample_tt (lk_chnr {rec_chnr(g)}) (lk_shuf {rec_shuf(g)}) {natl(n)} {r})',
-                          impl=impl, input=dict(fn='sample_tt', n=n, r=r)))
+                          impl=impl, input=dict(fn='sample_tt', n=n, r=r, n_form=nf, r_form=rf)))
     bad += C.exact_corr(R, 'sample_tt', HEADER, items, chunk=8, distribution=dist)
     # sample_rand_poi: the model only rearranges what uniform returned; doubles are passed as their bit patterns
     items = []
@@ -821,7 +867,8 @@ def oracle_square_chain(tn, Y, seed=0):
     """every multi-index: the audited conditionals multiply to entry^2/||Y||^2"""
     A = full(Y)
     n = list(A.shape)
-    inp = dict(fn='sample_square', Y=[G.tolist() for G in Y], forced='every multi-index', unique=False)
+    inp = dict(fn='sample_square', Y=[G.tolist() for G in Y], forced='every multi-index; argument forms of n (list, tuple, int32/int64/uint8 array, NumPy scalars, float array / '
+                              'list with integral values) and m (int, float, NumPy scalars), integer / float32 cores', unique=False)
     nrm = float((A ** 2).sum())
     if nrm <= 0:
         return None
@@ -1166,11 +1213,20 @@ def oracle_seedkind(tn, fn, seedkind, args):
     seed = {'None': None, '0': 0}.get(seedkind)
     if seedkind.startswith('gen'):
         seed = np.random.default_rng(int(seedkind[3:]))
+    elif seedkind.isdigit():
+        seed = int(seedkind)
+    args = dict(args)
+    nf, mf, cf = args.pop('n_form', None), args.pop('m_form', None), args.pop('core_form', None)
+    if mf and 'm' in args:
+        args['m'] = form_m(args['m'], mf)
+    n_arg = form_n(args['n'], nf) if (nf and 'n' in args) else args.get('n')
     try:
         with warnings.catch_warnings():
             warnings.simplefilter('ignore')
             if fn in ('sample', 'sample_square'):
                 Y = [np.asarray(G, dtype=float) for G in args['Y']]
+                if cf:
+                    Y = [G.astype({'int': np.int64, 'f32': np.float32, 'i32': np.int32}[cf]) for G in Y]
                 n = [G.shape[1] for G in Y]
                 m = args['m']
                 if fn == 'sample':
@@ -1188,7 +1244,7 @@ def oracle_seedkind(tn, fn, seedkind, args):
                     return dict(what=f'sample_square(unique=True, seed={seedkind}) returned repeated rows', input=inp)
                 return None
             if fn == 'sample_lhs':
-                I = tn.sample_lhs(args['n'], args['m'], seed=seed)
+                I = tn.sample_lhs(n_arg, args['m'], seed=seed)
                 f = check_int_array(I, int(args['m']), args['n'], fn, inp)
                 if f:
                     return f
@@ -1199,10 +1255,12 @@ def oracle_seedkind(tn, fn, seedkind, args):
                                          'ceil(m/n) times', input=inp, got=cnt.tolist(), mode=k)
                 return None
             if fn == 'sample_rand':
-                return check_int_array(tn.sample_rand(args['n'], args['m'], seed=seed), int(args['m']), args['n'], fn, inp)
+                return check_int_array(tn.sample_rand(n_arg, args['m'], seed=seed), int(args['m']), args['n'], fn, inp)
             if fn == 'sample_tt':
-                I, idx, im = tn.sample_tt(args['n'], args['r'], seed=seed)
+                I, idx, im = tn.sample_tt(n_arg, args['r'], seed=seed)
                 I, idx, im = np.asarray(I), np.asarray(idx), np.asarray(im)
+                if not (np.issubdtype(idx.dtype, np.integer) and np.issubdtype(im.dtype, np.integer)):
+                    return dict(what=f'sample_tt(seed={seedkind}): idx / idx_many are not integer arrays', input=inp)
                 d = len(args['n'])
                 if idx.shape != (d + 1,) or im.shape != (d,) or idx[0] != 0 or idx[-1] != I.shape[0]:
                     return dict(what=f'sample_tt(seed={seedkind}): idx / idx_many have the wrong shape or ends', input=inp)
@@ -1356,6 +1414,28 @@ def search(R, ctx, deep, hints):
                           ('sample_tt', dict(n=nn_, r=rng.randint(1, 3))),
                           ('sample_rand_poi', dict(a=aa, b=[x + 2.5 for x in aa], m=rng.choice([1, 4, 2.0])))):
             cand.append(dict(fn=fn_, kind='seedkind', seedkind=sk, args=args))
+    # argument forms: n as list / tuple / int32, int64, uint8 array / NumPy scalars / float array or list with integral
+    # values, m as int / float / NumPy scalars, integer and float32 cores: integer result, shape, bounds
+    for t in range(16 if deep else 8):
+        nn_ = [rng.randint(1, 6) for _ in range(rng.randint(1, 4))]
+        sk = rng.choice(['0', '7', 'None', f'gen{rng.randrange(1000)}'])
+        for fn_ in ('sample_rand', 'sample_lhs'):
+            cand.append(dict(fn=fn_, kind='seedkind', seedkind=sk,
+                             args=dict(n=nn_, m=rng.choice([1, 5, 12]), n_form=(N_FORMS_INT + N_FORMS_FLOAT)[(t + (fn_ == 'sample_lhs')) % 9],
+                                       m_form=rng.choice(M_FORMS))))
+        cand.append(dict(fn='sample_tt', kind='seedkind', seedkind=sk,
+                         args=dict(n=nn_, r=rng.randint(1, 3), n_form=N_FORMS_INT[t % len(N_FORMS_INT)])))
+        if t % 2 == 0:
+            Ya = gen_tt(rng, lo=0, hi=3)
+            while not full(Ya).sum() > 0:
+                Ya = gen_tt(rng, lo=0, hi=3)
+            cf = rng.choice([None, 'int', 'f32', 'i32'])
+            cand.append(dict(fn='sample', kind='seedkind', seedkind=sk,
+                             args=dict(Y=[G.tolist() for G in Ya], m=rng.choice([1, 4]), unsert=0.0, m_form=rng.choice(M_FORMS),
+                                       core_form=cf)))
+            cand.append(dict(fn='sample_square', kind='seedkind', seedkind=sk,
+                             args=dict(Y=[G.tolist() for G in Ya], m=rng.choice([1, 3]), unique=False,
+                                       m_form=rng.choice(M_FORMS), core_form=cf)))
     for p in cand:
         n_eval += 1
         try:
@@ -1391,7 +1471,8 @@ def search(R, ctx, deep, hints):
                               'chains up to d = 40) against exact integer probabilities; unique=True on peaked tensors '
                               'and every sampler for seed None / 0 / 1 / Generator, m as float; non-negative tensors with '
                               'mixed-sign cores (integer unimodular gauge, QR sweep, rotations, Kronecker squares), d = 3..5, '
-                              'every multi-index',
+                              'every multi-index; argument forms of n (list, tuple, int32/int64/uint8 array, NumPy scalars, float array / '
+                              'list with integral values) and m (int, float, NumPy scalars), integer / float32 cores',
                          evaluations=n_eval, failures=len(fails), deep=deep))
     return fails
 
